@@ -25,8 +25,8 @@ RULEVARS = ["command", "description", "depfile", "deps", "rspfile", "rspfile_con
 
 # ----------------------------------------------------------------------------- the bounded families
 FULL = dict(MaxStmts=7, MaxBinds=3, MaxRules=2, MaxBuilds=2, MaxNest=2, MaxMisc=1,
-            FBSel="{1,2,3,4,5,6,7,8,9}", RCSel="{1,2,3,4,5}", RDSel="{1,2,3}", RESel="{1,2,3,4,5,6,7}", RNSel="{1,2}",
-            BBSel="{1,2,3,4,5,6,7,8}", OutSel="{1,2,3,4}", InSel="{1,2,3,4,5,6}", BRSel="{1,2,3}",
+            FBSel="{1,2,3,4,5,6,7,8,9,10,11}", RCSel="{1,2,3,4,5}", RDSel="{1,2,3}", RESel="{1,2,3,4,5,6,7,8}", RNSel="{1,2}",
+            BBSel="{1,2,3,4,5,6,7,8,9,10}", OutSel="{1,2,3,4}", InSel="{1,2,3,4,5,6}", BRSel="{1,2,3}",
             NestKinds='{"include","subninja"}', EmitAll="FALSE")
 def fam(**kw):
     d = dict(FULL); d.update(kw); return d
@@ -41,6 +41,12 @@ SLICES_QUICK = {
     # include / subninja trees: sharing, nesting, no leak, parent's rules, include inside subninja
     "nest": fam(MaxStmts=5, MaxBinds=2, MaxRules=1, MaxBuilds=1, MaxNest=2, MaxMisc=0, FBSel="{1,2}", RCSel="{2}",
                 RDSel="{1}", RESel="{1}", RNSel="{1}", BBSel="{1}", OutSel="{1}", InSel="{2}", BRSel="{1}"),
+    # EMPTY values (`x =`, `x = ${undefined}`, `description =`) at file level in the root / an included / a subninja file,
+    # at build level and at rule level, shadowing non-empty values of the enclosing scopes ("bound to nothing" is bound)
+    "empty": fam(MaxStmts=5, MaxBinds=2, MaxRules=1, MaxBuilds=1, MaxNest=1, MaxMisc=0, FBSel="{1,8}", RCSel="{3}",
+                 RDSel="{1}", RESel="{1,8}", RNSel="{1}", BBSel="{1,9}", OutSel="{3}", InSel="{2}", BRSel="{1}"),
+    "empty2": fam(MaxStmts=4, MaxBinds=2, MaxRules=1, MaxBuilds=1, MaxNest=0, MaxMisc=0, FBSel="{5,10,11}", RCSel="{2,3}",
+                  RDSel="{1,2}", RESel="{1,8}", RNSel="{1}", BBSel="{1,10}", OutSel="{1}", InSel="{2}", BRSel="{1}"),
     # escapes and continuations in every position, depfile/deps/rspfile/generator/restat/pool, default, pool
     "attrs": fam(MaxStmts=4, MaxBinds=1, MaxRules=1, MaxBuilds=1, MaxNest=0, MaxMisc=1, FBSel="{6,8}", RCSel="{4}",
                  RDSel="{1}", RESel="{2,3,4,5,6,7}", RNSel="{2}", BBSel="{1,5,6,7,8}", OutSel="{1,4}", InSel="{2}", BRSel="{2}"),
@@ -56,7 +62,7 @@ SLICES_THOROUGH.update({
     "two": fam(MaxStmts=5, MaxBinds=1, MaxRules=2, MaxBuilds=2, MaxNest=0, MaxMisc=0, FBSel="{1,5}", RCSel="{1}",
                RDSel="{1,2}", RESel="{1}", RNSel="{1,2}", BBSel="{1,4}", OutSel="{1}", InSel="{2,5}", BRSel="{1,2,3}"),
 })
-INVARIANTS = ["BuildShadowsAll", "RuleOverFileLazy", "FileFallback", "InOut", "BuildValuesInFileScope",
+INVARIANTS = ["BuildShadowsAll", "RuleOverFileLazy", "FileFallback", "EmptyShadows", "InOut", "BuildValuesInFileScope",
               "PathsSeeBuildBindings", "ScopeTree"]
 PROPERTIES = ["OnlyCurrentScope", "CmdsFinal", "ExitRestores"]
 
@@ -197,7 +203,7 @@ def render_file(ast, f, V):
         elif k == "rule":
             out += b"rule" + sep() + st["n"].encode() + nl
             vs = list(st["vars"])
-            if V.shuffle: V.rng.shuffle(vs)
+            if V.shuffle and len({b["n"] for b in vs}) == len(vs): V.rng.shuffle(vs)
             for b in vs: out += V.indent() + render_binding(b["n"], b["v"], V, nl)
         elif k == "build":
             line = b"build"
@@ -671,7 +677,8 @@ def swappable(case):
     if not rules or any(c["rule"] == "phony" for c in case["exp"]["cmds"]): return []
     ks = []
     for k in ("description", "depfile", "rspfile_content"):
-        if all(any(b["n"] == k for b in r["vars"]) for r in rules): ks.append(k)
+        # (ninja rejects a rule whose `command =` is empty, so K must be bound to a non-empty text everywhere)
+        if all(any(b["n"] == k for b in r["vars"]) and all(b["v"] for b in r["vars"] if b["n"] == k) for r in rules): ks.append(k)
     return ks
 
 # ----------------------------------------------------------------------------- sh self-test of the quoting matcher
@@ -707,7 +714,7 @@ def enumerate_cases(tier, seed, wd):
     def sub(n, k): return "{" + ",".join(str(i) for i in sorted(rng.sample(range(1, n + 1), k))) + "}"
     simcfgs = []
     for k in range(nruns):
-        simcfgs.append((k, fam(FBSel=sub(9, 3), RCSel=sub(5, 2), RDSel=sub(3, 2), RESel=sub(7, 2), RNSel="{1,2}", BBSel=sub(8, 2),
+        simcfgs.append((k, fam(FBSel=sub(11, 3), RCSel=sub(5, 2), RDSel=sub(3, 2), RESel=sub(8, 2), RNSel="{1,2}", BBSel=sub(10, 2),
                                OutSel=sub(4, 2), InSel=sub(6, 2), BRSel="{1,2,3}"), rng.randrange(1 << 30)))
     def sim(a):
         k, consts, s = a
